@@ -2,7 +2,7 @@
 //! Runs in the overflow-checked `verif` build and in the plain `release` build: an unchecked
 //! `index * n` is a panic in one and a wrapped, in-range index in the other — both are violations.
 use egverif::fw::*;
-use egverif::imgs::BPPS;
+use egverif::imgs::{model_load, model_store, BPPS};
 use egverif::with_raw_types;
 use embedded_graphics::iterator::raw::RawDataSlice;
 use embedded_graphics::pixelcolor::raw::{DataOrder, RawData};
@@ -18,63 +18,6 @@ struct SCase {
     bg: u8,
     /// 0 boundary values, 1 all values of the type (<= 16 bit)
     values: u8,
-}
-
-/// bit-level model written from the documentation: returns (byte offset, bit shift) list of the
-/// pixel's bits; None if pixel `index` does not lie completely inside a buffer of `len` bytes.
-fn model_store(buf: &[u8], bpp: u8, be: bool, index: u128, v: u32) -> Option<Vec<u8>> {
-    let mut out = buf.to_vec();
-    let bpp_u = bpp as u128;
-    if bpp < 8 {
-        let ppb = 8 / bpp_u;
-        let byte = index / ppb;
-        if byte >= buf.len() as u128 {
-            return None;
-        }
-        let k = (index % ppb) as u32;
-        // LittleEndianMsb0: first pixel in the most significant bits; BigEndianLsb0: in the least significant bits
-        let shift = if be { k * bpp as u32 } else { (ppb as u32 - 1 - k) * bpp as u32 };
-        let mask = ((1u32 << bpp) - 1) as u8;
-        let b = &mut out[byte as usize];
-        *b = (*b & !(mask << shift)) | (((v as u8) & mask) << shift);
-    } else {
-        let n = bpp_u / 8;
-        let start = index.checked_mul(n)?;
-        if start + n > buf.len() as u128 {
-            return None;
-        }
-        for i in 0..n as usize {
-            // little endian: least significant byte first; big endian: most significant byte first
-            let byte = if be { (v >> (8 * (n as usize - 1 - i))) as u8 } else { (v >> (8 * i)) as u8 };
-            out[start as usize + i] = byte;
-        }
-    }
-    Some(out)
-}
-fn model_load(buf: &[u8], bpp: u8, be: bool, index: u128) -> Option<u32> {
-    let bpp_u = bpp as u128;
-    if bpp < 8 {
-        let ppb = 8 / bpp_u;
-        let byte = index / ppb;
-        if byte >= buf.len() as u128 {
-            return None;
-        }
-        let k = (index % ppb) as u32;
-        let shift = if be { k * bpp as u32 } else { (ppb as u32 - 1 - k) * bpp as u32 };
-        Some(((buf[byte as usize] >> shift) as u32) & ((1u32 << bpp) - 1))
-    } else {
-        let n = bpp_u / 8;
-        let start = index.checked_mul(n)?;
-        if start + n > buf.len() as u128 {
-            return None;
-        }
-        let mut v = 0u32;
-        for i in 0..n as usize {
-            let byte = buf[start as usize + i] as u32;
-            v |= if be { byte << (8 * (n as usize - 1 - i)) } else { byte << (8 * i) };
-        }
-        Some(v)
-    }
 }
 
 fn values(bpp: u8, all: bool) -> Vec<u32> {
